@@ -2,7 +2,7 @@
    Document::new_plain_english.  Nothing but `exact`.  Kept apart from Properties/C14.v because C02's token vocabulary
    (Lexer.token: kinds with twin_loc, words without metadata) and C14's (Ignore.token: every hashed field) share
    constructor names; Model/C14Edit.v is the bridge (emb_kind / doc_of). *)
-Require Import Base Tables_lexer Lexer Condense CondenseInv LexSplitProofs C12CondSpaces C02Quotes C14Edit C14Prepend.
+Require Import Base Tables_lexer Lexer Condense CondenseInv LexSplitProofs C12CondSpaces C02Quotes C14Edit C14Prepend C14Flat C14FlatPlain.
 Require Ignore IgnoreProofs C14EditProofs.
 
 (* match_quotes (C02's frozen model of Document::match_quotes), run on ANY token vector, and the dictionary, whatever
@@ -116,3 +116,61 @@ Proof.
   - destruct plain_prepend_example as (H1 & H2 & _ & _ & _ & _ & B & AB & E1 & E2 & _ & E4 & _ & E6 & _).
     split; [exact H1|]. split; [exact H2|]. exists B, AB. repeat split; assumption.
 Qed.
+
+(* ---------- phase 4: lints of real plain-English documents that flag runs of tokens ----------
+   the hull of any non-empty run `mid` of the tokens of the MODELLED Document::new_plain_english (any Unicode tables, any
+   dictionary) is a span whose lint is token-aligned (C14_aligned_windows / C14_aligned_collision_needs apply) *)
+Theorem C14_plain_lint_aligned :
+  forall pcode ncode scode (wm : token -> option N) u src pre mid post,
+  document_plain u src = Ok (pre ++ mid ++ post) -> mid <> [] ->
+  exists s e, s < e /\ e <= length src /\
+    forall l, Ignore.il_span l = mkspan s e ->
+      aligned (doc_of pcode ncode scode wm src (pre ++ mid ++ post)) l
+        (map (emb_tok pcode ncode scode wm) pre) (map (emb_tok pcode ncode scode wm) mid) (map (emb_tok pcode ncode scode wm) post).
+Proof. exact plain_lint_aligned. Qed.
+Check C14_plain_lint_aligned :
+  forall pcode ncode scode (wm : token -> option N) u src pre mid post,
+  document_plain u src = Ok (pre ++ mid ++ post) -> mid <> [] ->
+  exists s e, s < e /\ e <= length src /\
+    forall l, Ignore.il_span l = mkspan s e ->
+      aligned (doc_of pcode ncode scode wm src (pre ++ mid ++ post)) l
+        (map (emb_tok pcode ncode scode wm) pre) (map (emb_tok pcode ncode scode wm) mid) (map (emb_tok pcode ncode scode wm) post).
+Print Assumptions C14_plain_lint_aligned.
+
+(* so two lints that flag runs of tokens of plain-English documents (one document or two, any dictionaries) share a context
+   while the property tells them apart ONLY at the edge of a text or next to a one-character token *)
+Theorem C14_plain_collision_needs :
+  forall pcode ncode scode (wm1 wm2 : token -> option N) u src1 pre1 mid1 post1 src2 pre2 mid2 post2,
+  document_plain u src1 = Ok (pre1 ++ mid1 ++ post1) -> mid1 <> [] ->
+  document_plain u src2 = Ok (pre2 ++ mid2 ++ post2) -> mid2 <> [] ->
+  exists sp1 sp2, forall l1 l2 w1 w2,
+    Ignore.il_span l1 = sp1 -> Ignore.il_span l2 = sp2 ->
+    Ignore.nb_parts l1 (doc_of pcode ncode scode wm1 src1 (pre1 ++ mid1 ++ post1)) = Ok w1 ->
+    Ignore.nb_parts l2 (doc_of pcode ncode scode wm2 src2 (pre2 ++ mid2 ++ post2)) = Ok w2 ->
+    flat_of w1 = flat_of w2 -> w1 <> w2 ->
+    at_edge (map (emb_tok pcode ncode scode wm1) pre1) (map (emb_tok pcode ncode scode wm1) post1) \/
+    at_edge (map (emb_tok pcode ncode scode wm2) pre2) (map (emb_tok pcode ncode scode wm2) post2) \/
+    one_char_border (map (emb_tok pcode ncode scode wm1) pre1) (map (emb_tok pcode ncode scode wm1) post1) \/
+    one_char_border (map (emb_tok pcode ncode scode wm2) pre2) (map (emb_tok pcode ncode scode wm2) post2).
+Proof. exact plain_collision_needs. Qed.
+Check C14_plain_collision_needs :
+  forall pcode ncode scode (wm1 wm2 : token -> option N) u src1 pre1 mid1 post1 src2 pre2 mid2 post2,
+  document_plain u src1 = Ok (pre1 ++ mid1 ++ post1) -> mid1 <> [] ->
+  document_plain u src2 = Ok (pre2 ++ mid2 ++ post2) -> mid2 <> [] ->
+  exists sp1 sp2, forall l1 l2 w1 w2,
+    Ignore.il_span l1 = sp1 -> Ignore.il_span l2 = sp2 ->
+    Ignore.nb_parts l1 (doc_of pcode ncode scode wm1 src1 (pre1 ++ mid1 ++ post1)) = Ok w1 ->
+    Ignore.nb_parts l2 (doc_of pcode ncode scode wm2 src2 (pre2 ++ mid2 ++ post2)) = Ok w2 ->
+    flat_of w1 = flat_of w2 -> w1 <> w2 ->
+    at_edge (map (emb_tok pcode ncode scode wm1) pre1) (map (emb_tok pcode ncode scode wm1) post1) \/
+    at_edge (map (emb_tok pcode ncode scode wm2) pre2) (map (emb_tok pcode ncode scode wm2) post2) \/
+    one_char_border (map (emb_tok pcode ncode scode wm1) pre1) (map (emb_tok pcode ncode scode wm1) post1) \/
+    one_char_border (map (emb_tok pcode ncode scode wm2) pre2) (map (emb_tok pcode ncode scode wm2) post2).
+Print Assumptions C14_plain_collision_needs.
+
+(* non-vacuity: `ab cd` parsed by the modelled Document::new_plain_english is three tokens; the run made of the middle
+   one (the space) satisfies the premises of C14_plain_lint_aligned / C14_plain_collision_needs *)
+Example C14_plain_aligned_example :
+  exists ts, document_plain ascii_uni [97; 98; 32; 99; 100]%N = Ok ts /\ length ts = 3 /\
+    ts = firstn 1 ts ++ firstn 1 (skipn 1 ts) ++ skipn 2 ts /\ firstn 1 (skipn 1 ts) <> [].
+Proof. eexists. split; [vm_compute; reflexivity|]. split; [reflexivity|]. split; [reflexivity|discriminate]. Qed.
